@@ -388,6 +388,8 @@ def c01_corr(self, rng):
     for rules, path, exp, tag in c01_cases(rng):
         if any('float' in r for r in rules):
             continue                       # `float(text)` of a long numeral is a parameter of the model: covered by bfilter lines
+        if tag.endswith('/%d' % sizes()[-1]) and not tag.startswith(('int/', 'literal/')):
+            continue                       # the longest runs (2*LIMIT) go through whole lookups for two shapes only (driver time)
         run = _Runner()
         run.histb = True
         try:
